@@ -34,6 +34,13 @@ from pyvc.unordered import OneSiteAtATime
 _REF: dict = {}
 
 
+def _random_kinds(tier, k_quick=4, k_thorough=40):
+    import os
+    base = int(os.environ.get("VERIF_SEED", "1") or 1) * 100000
+    return [f"random:{base + i}"
+            for i in range(k_quick if tier != "thorough" else k_thorough)]
+
+
 def run_both(h, key, fn, observe):
     """Run *fn* under the adversarial chooser; compare with the reference."""
     import inspect
@@ -142,7 +149,7 @@ class DetPreprocess(Contract):
 
     def instances(self, tier):
         return [dict(label=k, kind=k)
-                for k in PROGRAMS]
+                for k in [*PROGRAMS, *_random_kinds(tier)]]
 
     def run(self, h, inst):
         from pytato.codegen import preprocess
@@ -215,7 +222,7 @@ class DetLoopy(Contract):
 
     def instances(self, tier):
         return [dict(label=k, kind=k)
-                for k in PROGRAMS]
+                for k in [*PROGRAMS, *_random_kinds(tier)]]
 
     def run(self, h, inst):
         h.interp.repo_prefixes = (*h.interp.repo_prefixes, "pytools.graph")
